@@ -34,36 +34,13 @@ Proof. intros E. apply (f_equal this) in E. vm_compute in E. discriminate. Qed.
 Lemma mu0_stub_nz : mu0_stub <> 0%Qc.
 Proof. intros E. apply (f_equal this) in E. vm_compute in E. discriminate. Qed.
 
-(* ------------------------------------------------------------------ Cylinder: a point on the edge.
-   d = 2, h = 2, observer (1, 0, 1), axial polarization (0, 0, 1):  B = H = 0 but J = pol *)
+(* ------------------------------------------------------------------ rows used by the non-vacuity example:
+   the Cylinder edge point and the CylinderSegment shell point that violated B = mu0*H + J before commits
+   41540a4 / 77d60b2; now all four outputs vanish there *)
 Definition w_cyl_edge : cyl_row :=
   {| cy_r := z 1; cy_c := z 1; cy_s := z 0; cy_z := z 1; cy_d := z 2; cy_h := z 2;
      cy_pol := (z 0, z 0, z 1); cy_pxy := z 0; cy_dphi := z 0 |}.
 
-Lemma w_cyl_edge_on_edge : cyl_on_edge w_cyl_edge = true /\ cyl_inside0 w_cyl_edge = true.
-Proof. split; vm_compute; reflexivity. Qed.
-
-Lemma cylinder_edge_violates :
-  bhjm_cylinder stub_cyl_tv stub_cyl_ax mu0_src FB w_cyl_edge <>
-  vadd (vmuls (bhjm_cylinder stub_cyl_tv stub_cyl_ax mu0_src FH w_cyl_edge) mu0_src)
-       (bhjm_cylinder stub_cyl_tv stub_cyl_ax mu0_src FJ w_cyl_edge).
-Proof. apply veqb_false_neq. vm_compute. reflexivity. Qed.
-
-Lemma cylinder_edge_values :
-  bhjm_cylinder stub_cyl_tv stub_cyl_ax mu0_src FB w_cyl_edge = vzero /\
-  bhjm_cylinder stub_cyl_tv stub_cyl_ax mu0_src FH w_cyl_edge = vzero /\
-  bhjm_cylinder stub_cyl_tv stub_cyl_ax mu0_src FJ w_cyl_edge = cy_pol w_cyl_edge.
-Proof.
-  assert (E : forall a b : @vec QcOps, veqb a b = true -> a = b).
-  { intros [[a1 a2] a3] [[b1 b2] b3] H. cbn in H.
-    apply andb_prop in H. destruct H as [H H3]. apply andb_prop in H. destruct H as [H1 H2].
-    apply Qc_eq_bool_correct in H1, H2, H3. subst. reflexivity. }
-  repeat split; apply E; vm_compute; reflexivity.
-Qed.
-
-(* ------------------------------------------------------------------ CylinderSegment: a point on the outer shell
-   r1 = 1, r2 = 2, h = 2, phi in [0, 1.57]; the observer at r = 2, phi = 0.78, z = 0 lies on the shell;
-   a second observer at r = 5 is off every surface *)
 Definition w_seg (r : Qc) : seg_row :=
   {| cs_r := r; cs_phi := q 78 100; cs_phio2 := q (-550) 100; cs_c := q 7 10; cs_s := q 7 10; cs_z := z 0;
      cs_r1 := z 1; cs_r2 := z 2; cs_h := z 2; cs_phi1 := z 0; cs_phi2 := z 90;
@@ -72,20 +49,13 @@ Definition w_seg (r : Qc) : seg_row :=
 Definition w_seg_on := w_seg (z 2).
 Definition w_seg_off := w_seg (z 5).
 
-Lemma w_seg_masks : seg_not_on_surf w_seg_on = false /\ seg_inside w_seg_on = true /\ seg_not_on_surf w_seg_off = true.
+Lemma special_rows :
+  cyl_on_edge w_cyl_edge = true /\ cyl_inside0 w_cyl_edge = true /\ cyl_inside w_cyl_edge = false /\
+  seg_not_on_surf w_seg_on = false /\ seg_inside w_seg_on = true /\ seg_inside_J w_seg_on = false /\
+  seg_not_on_surf w_seg_off = true /\
+  veqb (bhjm_cylinder stub_cyl_tv stub_cyl_ax mu0_src FJ w_cyl_edge) vzero = true /\
+  veqb (nth 0 (bhjm_seg_batch (stub_seg mu0_src) mu0_src FJ [w_seg_on; w_seg_off]) (z 1, z 1, z 1)) vzero = true.
 Proof. repeat split; vm_compute; reflexivity. Qed.
-
-(* in a batch that also contains an off-surface row: B = H = 0 but J = pol *)
-Lemma segment_surface_violates :
-  let out f := nth 0 (bhjm_seg_batch (stub_seg mu0_src) mu0_src f [w_seg_on; w_seg_off]) vzero in
-  out FB <> vadd (vmuls (out FH) mu0_src) (out FJ).
-Proof. cbv zeta. apply veqb_false_neq. vm_compute. reflexivity. Qed.
-
-(* and J of the SAME row depends on the batch: alone it is 0, next to an off-surface row it is pol *)
-Lemma segment_surface_batch_dependent :
-  nth 0 (bhjm_seg_batch (stub_seg mu0_src) mu0_src FJ [w_seg_on]) vzero <>
-  nth 0 (bhjm_seg_batch (stub_seg mu0_src) mu0_src FJ [w_seg_on; w_seg_off]) vzero.
-Proof. apply veqb_false_neq. vm_compute. reflexivity. Qed.
 
 (* ------------------------------------------------------------------ the setters' constant is not magpylib.mu_0 *)
 Lemma setter_constant_differs : Qeq_bool mu0_setter_magnetization mu0_exported = false.
@@ -109,3 +79,15 @@ Lemma name_sites_single : all_sites_exported mu0_name_sites = true.
 Proof. vm_compute. reflexivity. Qed.
 Lemma use_sites_single : all_sites_exported mu0_use_sites = true.
 Proof. vm_compute. reflexivity. Qed.
+
+(* GenConst inventory of constant expressions that are numerically a mu_0 (or 1/mu_0) but do not go through the
+   name: exactly the two setter sites, the conversion factor 1/(4*pi*1e-7) inside current_circle_Hfield (it
+   multiplies the core's own 1e-6/20, the product is 1/(8*pi): no mu_0), and `1e-7 / MU0` inside
+   magnet_cylinder_segment_Hfield.  A further literal anywhere in the package breaks this proof. *)
+Definition near_one (x : Q) (e : Q) : bool := Qle_bool (Qabs (x - 1)) e.
+Lemma literal_inventory :
+  length mu0_literal_sites = 1%nat /\ length inv_mu0_literal_sites = 2%nat /\ length mu0_mixed_sites = 1%nat /\
+  forallb (fun sq => Qeq_bool (snd sq) mu0_setter_magnetization) mu0_literal_sites = true /\
+  forallb (fun sq => near_one (snd sq * mu0_setter_magnetization) (1 # 1000000000000000)) inv_mu0_literal_sites = true /\
+  forallb (fun sq => near_one (snd sq * four_pi_b64) (2 # 10000000000)) mu0_mixed_sites = true.
+Proof. repeat split; vm_compute; reflexivity. Qed.
